@@ -64,6 +64,16 @@ def cases(rng, tier):
             g = (kind, a, m)
             cs.append({"kind": "matrix", "n": 3, "e": ("dgr", g)})
             cs.append({"kind": "matrix", "n": 3, "e": ("mul", g, ("dgr", g))})
+    # angles so small that their cosine rounds to 1 while the sine does not vanish: one gate, and four in a row (the
+    # deviation of a wrong dagger adds up)
+    for kind in gen.PARAM1 + gen.PARAM2:
+        m = 0b10 if kind in gen.PARAM1 else 0b101
+        for a in (2e-8, -2e-8, 1.2e-8, 3e-9):
+            g = (kind, a, m)
+            e4 = ("mul", ("mul", g, g), ("mul", g, g))
+            cs.append({"kind": "matrix", "n": 3, "e": ("dgr", g)})
+            cs.append({"kind": "matrix", "n": 3, "e": ("mul", g, ("dgr", g))})
+            cs.append({"kind": "matrix", "n": 3, "e": ("mul", e4, ("dgr", e4))})
     # products: dagger of a product, product with its dagger
     maxlen = 12 if tier == "quick" else 200
     for _ in range(80 if tier == "quick" else 2000):
